@@ -12,6 +12,9 @@
 //!   maxrows <n>
 //!   vars                                            report vars() after every row
 //!   continue                                        keep calling next() after an error item (recorded as an ERR row)
+//!   verdicts                                        append to every row ` pass [..] fail [..] unchecked [..]`: the names of the entries
+//!                                                   with check() true / false, the names returned by failing_outputs() must equal
+//!                                                   the `fail` list (else `failing_outputs-differs`), and !is_checked()
 //!   static                                          also run try_iter_static() and report "static": refused | the rows as
 //!                                                   `line L in [..] exp [Y=e ..]`, and "dynproj": the dynamic rows in that form
 //!   expect ...                                      (ignored here; read by tools/scenarios.py)
@@ -143,6 +146,7 @@ fn main() {
     let mut want_vars = false;
     let mut keep_going = false;
     let mut want_static = false;
+    let mut want_verdicts = false;
     let mut program = String::new();
     let mut in_prog = false;
     for line in text.split_inclusive('\n') {
@@ -185,6 +189,7 @@ fn main() {
             "vars" => want_vars = true,
             "continue" => keep_going = true,
             "static" => want_static = true,
+            "verdicts" => want_verdicts = true,
             "program" => in_prog = true,
             _ => {}
         }
@@ -247,12 +252,24 @@ fn main() {
                         fmt_inputs(&r.inputs),
                         r.outputs.iter().map(|x| format!("{}={}", x.signal.name, x.expected)).collect::<Vec<_>>().join(" ")
                     ));
-                    rows.push(format!(
+                    let mut line = format!(
                         "line {} in [{}] out [{}]",
                         r.line,
                         fmt_inputs(&r.inputs),
                         r.outputs.iter().map(|x| format!("{}={}/{}", x.signal.name, x.output, x.expected)).collect::<Vec<_>>().join(" ")
-                    ));
+                    );
+                    if want_verdicts {
+                        let names = |f: &dyn Fn(&digital_test_runner::OutputResultEntry<'_>) -> bool| {
+                            r.outputs.iter().filter(|x| f(x)).map(|x| x.signal.name.clone()).collect::<Vec<_>>().join(" ")
+                        };
+                        let fo = r.failing_outputs().map(|x| x.signal.name.clone()).collect::<Vec<_>>().join(" ");
+                        let fail = names(&|x| !x.check());
+                        line.push_str(&format!(" pass [{}] fail [{}] unchecked [{}]", names(&|x| x.check()), fail, names(&|x| !x.is_checked())));
+                        if fo != fail {
+                            line.push_str(" failing_outputs-differs");
+                        }
+                    }
+                    rows.push(line);
                     if want_vars {
                         let mut v: Vec<(String, i64)> = it.vars().into_iter().collect();
                         v.sort();
